@@ -215,7 +215,10 @@ func (corSelf *CorDef[T]) doCloseSafe(fn func()) {
 	verifPoint("cor.doCloseSafe.afterDoneCheck", corSelf)
 	corSelf.closedM.Lock()
 	verifPoint("cor.doCloseSafe.locked", corSelf)
-	fn()
+	// close() sets the flag before it takes the lock: re-check, the channels may be closed by now
+	if !corSelf.IsDone() {
+		fn()
+	}
 	corSelf.closedM.Unlock()
 }
 
